@@ -628,19 +628,19 @@ theorem cmdsToSpecs_inv (v : Variant) (c : Cmd) :
 def procRes1 (s : Spec) : List Res := opensOf (spawn s)
 def procRes (procs : List Spec) : List Res := procs.flatMap procRes1
 
-theorem closes_installs (k : Nat) (ss : List Sig) : closes (installs k ss) = ([] : List Res) := by
+theorem closes_installs (k : Nat) (ss : List Sig) : closes (installs (ρ := Res) k ss) = ([] : List Res) := by
   induction ss with
   | nil => rfl
   | cons s ss ih => simpa [installs, closes] using ih
-theorem closes_restores (k : Nat) (ss : List Sig) : closes (restores k ss) = ([] : List Res) := by
+theorem closes_restores (k : Nat) (ss : List Sig) : closes (restores (ρ := Res) k ss) = ([] : List Res) := by
   induction ss with
   | nil => rfl
   | cons s ss ih => simpa [restores, closes] using ih
-theorem opensOf_installs (k : Nat) (ss : List Sig) : opensOf (installs k ss) = ([] : List Res) := by
+theorem opensOf_installs (k : Nat) (ss : List Sig) : opensOf (installs (ρ := Res) k ss) = ([] : List Res) := by
   induction ss with
   | nil => rfl
   | cons s ss ih => simpa [installs, opensOf] using ih
-theorem opensOf_restores (k : Nat) (ss : List Sig) : opensOf (restores k ss) = ([] : List Res) := by
+theorem opensOf_restores (k : Nat) (ss : List Sig) : opensOf (restores (ρ := Res) k ss) = ([] : List Res) := by
   induction ss with
   | nil => rfl
   | cons s ss ih => simpa [restores, opensOf] using ih
@@ -699,10 +699,10 @@ theorem closes_closePrev (s : Spec) : closes (closePrev s) = s.held ++ procRes1 
 theorem opensOf_closePrev (s : Spec) : opensOf (closePrev s) = [] := by
   rw [closePrev, opensOf_append, opensOf_closeSpec, opensOf_reap]; rfl
 
-theorem opensOf_restoreAll (procs : List Spec) : opensOf (restoreAll procs) = ([] : List Res) :=
+theorem opensOf_restoreAll (onMain : Bool) (procs : List Spec) : opensOf (restoreAll onMain procs) = ([] : List Res) :=
   opensOf_flatMap _ _ (fun _ _ => opensOf_restores _ _)
 
-theorem closes_restoreAll (procs : List Spec) : closes (restoreAll procs) = ([] : List Res) := by
+theorem closes_restoreAll (onMain : Bool) (procs : List Spec) : closes (restoreAll onMain procs) = ([] : List Res) := by
   rw [restoreAll, closes_flatMap]
   induction procs.reverse with
   | nil => rfl
@@ -714,8 +714,8 @@ theorem opensOf_lastClose (specs : List Spec) : opensOf (lastClose specs) = [] :
   · rfl
 
 /-- `end()` opens nothing -/
-theorem opensOf_finish (v : Variant) (aborts : Bool) (specs : List Spec) (st : Started) :
-    opensOf (finish v aborts specs st) = [] := by
+theorem opensOf_finish (v : Variant) (aborts onMain : Bool) (specs : List Spec) (st : Started) :
+    opensOf (finish v aborts onMain specs st) = [] := by
   unfold finish
   split
   · rw [opensOf_append, opensOf_append, opensOf_flatMap _ _ (fun _ _ => opensOf_closePrev _), opensOf_lastClose]
@@ -726,7 +726,7 @@ theorem opensOf_finish (v : Variant) (aborts : Bool) (specs : List Spec) (st : S
     · rfl
     · rename_i l _
       rw [opensOf_append, opensOf_append, opensOf_append, opensOf_flatMap _ _ (fun _ _ => opensOf_closePrev _), opensOf_closeSpec]
-      have h1 : opensOf (if aborts = true then joinOnly l else reap l ++ restores l.idx l.sigs) = ([] : List Res) := by
+      have h1 : opensOf (if aborts = true then joinOnly l else reap l ++ restores l.idx (l.hs onMain)) = ([] : List Res) := by
         split
         · exact opensOf_joinOnly _
         · rw [opensOf_append, opensOf_reap, opensOf_restores]; rfl
@@ -761,10 +761,10 @@ theorem joinOnly_covers (l : Spec) {x : Res} (hx : x ∈ procRes1 l) : x ∈ clo
 
 /-- `end()` closes everything every started stage holds and waits for every started stage — except that, when the body of
 `_end` was left early, a plain `Popen` last stage is not waited for -/
-theorem finish_closes (v : Variant) (aborts : Bool) (specs : List Spec) (st : Started)
+theorem finish_closes (v : Variant) (aborts onMain : Bool) (specs : List Spec) (st : Started)
     (hcase : st.failed = false ∨ v.teardown = true ∨ st.procs = []) :
     ∀ s ∈ st.procs, ∀ x ∈ s.held ++ procRes1 s,
-      x ∈ closes (finish v aborts specs st) ∨ (aborts = true ∧ x.what = .child) := by
+      x ∈ closes (finish v aborts onMain specs st) ∨ (aborts = true ∧ x.what = .child) := by
   intro s hs x hx
   unfold finish
   by_cases hf : st.failed = true
@@ -808,5 +808,1170 @@ theorem finish_closes (v : Variant) (aborts : Bool) (specs : List Spec) (st : St
             simp only [Bool.false_eq_true, if_false]
             rw [closes_append, closes_append, closes_append, closes_append, closes_reap]
             exact List.mem_append_left _ (List.mem_append_left _ (List.mem_append_right _ (List.mem_append_left _ hx)))
+
+
+theorem command_of_ok {v : Variant} {c : Cmd} (h : (cmdsToSpecs v c).why = .ok) :
+    command v c = ⟨(cmdsToSpecs v c).evs ++ (start c.onMain (cmdsToSpecs v c).specs).evs ++
+        (if endCalled c then finish v c.endAborts c.onMain (cmdsToSpecs v c).specs (start c.onMain (cmdsToSpecs v c).specs) else []),
+      [], .ok, (start c.onMain (cmdsToSpecs v c).specs).failed, (start c.onMain (cmdsToSpecs v c).specs).procs⟩ := by
+  simp [command, h]
+
+theorem command_of_not_ok {v : Variant} {c : Cmd} (h : (cmdsToSpecs v c).why ≠ .ok) :
+    command v c = ⟨(cmdsToSpecs v c).evs, (cmdsToSpecs v c).onRelease, (cmdsToSpecs v c).why, false, []⟩ := by
+  simp [command, h]
+
+theorem mem_heldAll {specs : List Spec} {x : Res} : x ∈ heldAll specs ↔ ∃ s ∈ specs, x ∈ s.held := by
+  simp [heldAll, List.mem_flatMap]
+
+/-- THE LEDGER OF ONE COMMAND: if the pipeline is ended, and (in the code as it is) no stage other than the first fails
+to start, nothing the command acquired is left — except the un-waited child of a plain-`Popen` last stage when the body
+of `_end` was left early -/
+theorem command_residue (v : Variant) (c : Cmd) (hend : endCalled c = true)
+    (hg : v.teardown = true ∨ ((command v c).startFailed = true → (command v c).procs = [])) :
+    ∀ x ∈ runRes [] (command v c).all, c.endAborts = true ∧ x.what = .child := by
+  intro x hx
+  by_cases hw : (cmdsToSpecs v c).why = .ok
+  · obtain ⟨p1, _, _⟩ := (cmdsToSpecs_inv v c).1 hw
+    rw [command_of_ok hw] at hx hg
+    simp only [Run.all, hend, if_true, List.append_nil] at hx hg
+    obtain ⟨s1, suf, s2, s3, _⟩ := start_inv c.onMain (cmdsToSpecs v c).specs
+    have hcase : (start c.onMain (cmdsToSpecs v c).specs).failed = false ∨ v.teardown = true ∨
+        (start c.onMain (cmdsToSpecs v c).specs).procs = [] := by
+      rcases hg with h | h
+      · exact Or.inr (Or.inl h)
+      · cases hf : (start c.onMain (cmdsToSpecs v c).specs).failed with
+        | false => exact Or.inl rfl
+        | true => exact Or.inr (Or.inr (h hf))
+    have fc := finish_closes v c.endAborts c.onMain (cmdsToSpecs v c).specs _ hcase
+    rcases mem_runRes_append.1 hx with h | ⟨h, hnc⟩
+    · rw [runRes_nil_of_no_opens (opensOf_finish _ _ _ _ _)] at h; simp at h
+    · have key : ∀ s ∈ (start c.onMain (cmdsToSpecs v c).specs).procs, x ∈ s.held ++ procRes1 s →
+          c.endAborts = true ∧ x.what = .child := by
+        intro s hs hxs
+        rcases fc s hs x hxs with h' | h'
+        · exact absurd h' hnc
+        · exact h'
+      rcases mem_runRes_append.1 h with h | ⟨h, hns⟩
+      · obtain ⟨s, hs, hxs⟩ := List.mem_flatMap.1 (s1 h)
+        exact key s hs (List.mem_append_right _ hxs)
+      · have := p1 h
+        rw [s2, heldAll_append] at this
+        rcases List.mem_append.1 this with h' | h'
+        · obtain ⟨s, hs, hxs⟩ := mem_heldAll.1 h'
+          exact key s hs (List.mem_append_left _ hxs)
+        · rw [← s3] at h'; exact absurd h' hns
+  · have := (cmdsToSpecs_inv v c).2 hw
+    rw [command_of_not_ok hw] at hx
+    simp only [Run.all] at hx
+    rw [this] at hx; simp at hx
+
+
+-- sessions: generations ------------------------------------------------------------------------------------------
+
+section Gen
+variable {ρ' κ' : Type} [DecidableEq ρ']
+
+theorem closes_map (f : ρ → ρ') (h : κ → κ') (evs : List (Ev ρ κ)) :
+    closes (evs.map (Ev.map f h)) = (closes evs).map f := by
+  induction evs with
+  | nil => rfl
+  | cons e evs ih => cases e <;> simp [closes, Ev.map, ih]
+
+theorem runRes_map (f : ρ → ρ') (hf : Function.Injective f) (h : κ → κ') (evs : List (Ev ρ κ)) :
+    ∀ L : List ρ, runRes (L.map f) (evs.map (Ev.map f h)) = (runRes L evs).map f := by
+  induction evs with
+  | nil => intro L; rfl
+  | cons e evs ih =>
+    intro L
+    cases e with
+    | opn r => simpa [Ev.map, stepRes] using ih (r :: L)
+    | cls r =>
+      simp only [List.map_cons, Ev.map, runRes_cons, stepRes]
+      rw [← ih (L.filter _)]
+      congr 1
+      rw [List.filter_map]
+      congr 1
+      apply List.filter_congr
+      intro x _
+      simp [Function.comp, hf.eq_iff]
+    | install k s => simpa [Ev.map, stepRes] using ih L
+    | restore k s => simpa [Ev.map, stepRes] using ih L
+
+end Gen
+
+theorem pair_injective (g : Nat) : Function.Injective (fun r : Res => (g, r)) := by
+  intro a b h; simpa using h
+
+/-- a command run as generation g on top of a ledger that holds nothing of generation g: its own residue is added, nothing
+that was there is touched -/
+theorem runRes_atGen (g : Nat) (evs : List CEv) (L0 : List (Nat × Res)) (hf : ∀ r ∈ L0, r.1 ≠ g) :
+    runRes L0 (atGen g evs) = (runRes [] evs).map (fun r => (g, r)) ++ L0 := by
+  rw [runRes_char]
+  congr 1
+  · have := runRes_map (fun r : Res => (g, r)) (pair_injective g) (fun k : Nat => (g, k)) evs []
+    simpa [atGen] using this
+  · apply List.filter_eq_self.2
+    intro r hr
+    simp only [atGen, closes_map, List.mem_map, not_exists, not_and, Bool.not_eq_true', decide_eq_false_iff_not]
+    intro x _ hx
+    exact hf r hr (by rw [← hx])
+
+
+-- signal handlers ------------------------------------------------------------------------------------------------
+
+/-- an event list that swaps no handler -/
+def noSig : List (Ev ρ κ) → Bool
+  | [] => true
+  | .opn _ :: rest => noSig rest
+  | .cls _ :: rest => noSig rest
+  | _ :: _ => false
+
+@[simp] theorem noSig_nil : noSig ([] : List (Ev ρ κ)) = true := rfl
+@[simp] theorem noSig_opn (r : ρ) (l : List (Ev ρ κ)) : noSig (.opn r :: l) = noSig l := rfl
+@[simp] theorem noSig_cls (r : ρ) (l : List (Ev ρ κ)) : noSig (.cls r :: l) = noSig l := rfl
+@[simp] theorem noSig_append (a b : List (Ev ρ κ)) : noSig (a ++ b) = (noSig a && noSig b) := by
+  induction a with
+  | nil => simp
+  | cons e a ih => cases e <;> simp [noSig, ih]
+@[simp] theorem noSig_map_cls (l : List ρ) : noSig (l.map (Ev.cls (κ := κ))) = true := by
+  induction l with
+  | nil => rfl
+  | cons x xs ih => simpa using ih
+
+section
+variable [DecidableEq κ]
+@[simp] theorem runSig_nil (S : SigSt κ) : runSig (ρ := ρ) S [] = S := rfl
+@[simp] theorem runSig_cons (S : SigSt κ) (e : Ev ρ κ) (evs) : runSig S (e :: evs) = runSig (stepSig S e) evs := rfl
+theorem runSig_append (S : SigSt κ) (a b : List (Ev ρ κ)) : runSig S (a ++ b) = runSig (runSig S a) b := by
+  simp [runSig, List.foldl_append]
+
+theorem runSig_noSig {evs : List (Ev ρ κ)} (h : noSig evs = true) (S : SigSt κ) : runSig S evs = S := by
+  induction evs with
+  | nil => rfl
+  | cons e evs ih =>
+    cases e with
+    | opn r => simpa [stepSig] using ih (by simpa using h)
+    | cls r => simpa [stepSig] using ih (by simpa using h)
+    | install k s => simp [noSig] at h
+    | restore k s => simp [noSig] at h
+end
+
+@[simp] theorem noSig_closeSpec (s : Spec) : noSig (closeSpec s) = true := by simp [closeSpec]
+@[simp] theorem noSig_closeAll (specs : List Spec) : noSig (closeAll specs) = true := by
+  induction specs with
+  | nil => rfl
+  | cons s rest ih =>
+    have : closeAll (s :: rest) = closeSpec s ++ closeAll rest := by simp [closeAll]
+    simp [this, ih]
+
+theorem noSig_assign (cur v : Option Val) : noSig (assign cur v).evs = true := by
+  unfold assign; split <;> (try split) <;> simp
+
+theorem noSig_assign3 (s : Spec) (a b c : Option Val) : noSig (assign3 s a b c).evs = true := by
+  unfold assign3; dsimp only
+  split
+  · exact noSig_assign _ _
+  · split
+    · simp [noSig_assign]
+    · simp [noSig_assign]
+
+theorem noSig_applyRedir (k j : Nat) (s : Spec) (r : Redir) : noSig (applyRedir k j s r).evs = true := by
+  unfold applyRedir
+  split <;> (try split) <;> simp [noSig_assign3]
+
+theorem noSig_applyRedirs (k : Nat) (rs : List Redir) : ∀ j s, noSig (applyRedirs k j s rs).evs = true := by
+  induction rs with
+  | nil => intro j s; rfl
+  | cons r rs ih =>
+    intro j s
+    simp only [applyRedirs]
+    split
+    · exact noSig_applyRedir _ _ _ _
+    · simp [noSig_applyRedir, ih]
+
+theorem noSig_build (k : Nat) (st : Stage) : noSig (build k st).evs = true := by
+  unfold build; dsimp only; split <;> exact noSig_applyRedirs _ _ _ _
+
+theorem noSig_buildAll (stages : List Stage) : ∀ k, noSig (buildAll k stages).evs = true := by
+  induction stages with
+  | nil => intro k; rfl
+  | cons st rest ih =>
+    intro k
+    simp only [buildAll]
+    split
+    · exact noSig_build _ _
+    · simp [noSig_build, ih]
+
+theorem noSig_wire (rest : List Spec) : ∀ up, noSig (wire up rest).evs = true := by
+  induction rest with
+  | nil => intro up; rfl
+  | cons dn rest ih =>
+    intro up
+    simp only [wire]
+    split
+    · rfl
+    · split
+      · rfl
+      · simp [ih]
+
+theorem noSig_capPipe (k : Nat) (e : Bool) : noSig (capPipe k e) = true := rfl
+
+theorem noSig_updateLast (c : Capture) (ca : Bool) (s : Spec) : noSig (updateLast c ca s).1 = true := by
+  unfold updateLast
+  split
+  · rfl
+  · split
+    · rfl
+    · simp only [makeCaptured, noSig_append, Bool.and_eq_true]
+      constructor
+      · unfold capOutSide; split <;> simp [noSig_capPipe]
+      · unfold capErrSide; split <;> simp [noSig_capPipe]
+
+theorem noSig_mapLast (c : Capture) (ca : Bool) (specs : List Spec) : noSig (mapLast (updateLast c ca) specs).1 = true := by
+  induction specs with
+  | nil => rfl
+  | cons s rest ih =>
+    cases rest with
+    | nil => simpa [mapLast] using noSig_updateLast c ca s
+    | cons s2 rest2 => simpa [mapLast] using ih
+
+theorem noSig_cmdsToSpecs (v : Variant) (c : Cmd) :
+    noSig (cmdsToSpecs v c).evs = true ∧ noSig (cmdsToSpecs v c).onRelease = true := by
+  unfold cmdsToSpecs
+  dsimp only
+  split
+  · split <;> simp [noSig_buildAll]
+  · split
+    · simp [noSig_buildAll]
+    · split
+      · split <;> simp [noSig_buildAll, noSig_wire]
+      · split
+        · simp [noSig_buildAll, noSig_wire]
+        · split
+          · simp [noSig_buildAll, noSig_wire]
+          · simp [noSig_buildAll, noSig_wire, noSig_mapLast]
+
+
+section Handlers
+variable [DecidableEq κ]
+
+/-- proc k remembers no old handler -/
+def FreshKey (S : SigSt κ) (k : κ) : Prop := ∀ s, lookupKey (k, s) S.saved = none
+
+/-- the signal lists a proc object swaps: none, SIGINT, or all four -/
+def Allowed (ss : List Sig) : Prop := ss = [] ∨ ss = [.int] ∨ ss = [.int, .tstp, .quit, .winch]
+
+theorem set_get_self (h : Handlers κ) (s : Sig) : h.set s (h.get s) = h := by
+  cases s <;> rfl
+
+/-- a proc's swap followed by its own restore changes nothing -/
+theorem ins_res_cancel (S : SigSt κ) (k : κ) (ss : List Sig) (ha : Allowed ss) (hf : FreshKey S k) :
+    runSig (ρ := ρ) S (installs k ss ++ restores k ss) = S := by
+  obtain ⟨cur, saved⟩ := S
+  obtain ⟨a, b, c, d⟩ := cur
+  rcases ha with rfl | rfl | rfl
+  · rfl
+  · simp [installs, restores, stepSig, lookupKey, eraseKey, Handlers.set, Handlers.get]
+  · simp [installs, restores, stepSig, lookupKey, eraseKey, Handlers.set, Handlers.get]
+
+/-- restoring a proc that remembers nothing is a no-op -/
+theorem res_fresh (S : SigSt κ) (k : κ) (ss : List Sig) (hf : FreshKey S k) : runSig (ρ := ρ) S (restores k ss) = S := by
+  induction ss with
+  | nil => rfl
+  | cons s ss ih => simp only [restores, List.map_cons, runSig_cons, stepSig, hf s]; exact ih
+
+theorem lookupKey_ins_other (S : SigSt κ) (k k' : κ) (hne : k' ≠ k) (ss : List Sig) (s : Sig) :
+    lookupKey (k', s) (runSig (ρ := ρ) S (installs k ss)).saved = lookupKey (k', s) S.saved := by
+  induction ss generalizing S with
+  | nil => rfl
+  | cons a ss ih =>
+    simp only [installs, List.map_cons, runSig_cons] at ih ⊢
+    rw [ih]
+    simp [stepSig, lookupKey, hne.symm]
+
+theorem fresh_ins_other {S : SigSt κ} {k k' : κ} (hne : k' ≠ k) (ss : List Sig) (hf : FreshKey S k') :
+    FreshKey (runSig (ρ := ρ) S (installs k ss)) k' := by
+  intro s; rw [lookupKey_ins_other S k k' hne]; exact hf s
+
+/-- WELL-NESTED SWAPS: procs swap in order, something that leaves the handlers alone happens, they restore last first —
+the signal table and every proc's memory are as before.  `P` is whatever `mid` needs to be a no-op. -/
+theorem nest_id (mid : List (Ev ρ κ)) (P : SigSt κ → Prop) (hmid : ∀ T, P T → runSig T mid = T)
+    (ps : List (κ × List Sig)) (hP : ∀ T, P T → ∀ p ∈ ps, P (runSig (ρ := ρ) T (installs p.1 p.2))) :
+    ∀ S, P S → (∀ p ∈ ps, FreshKey S p.1 ∧ Allowed p.2) → (ps.map (·.1)).Nodup →
+      runSig S (ps.flatMap (fun p => installs p.1 p.2) ++ mid ++ ps.reverse.flatMap (fun p => restores p.1 p.2)) = S := by
+  induction ps with
+  | nil => intro S hS _ _; simpa using hmid S hS
+  | cons p rest ih =>
+    intro S hS hfresh hnd
+    obtain ⟨k, ss⟩ := p
+    have hk := hfresh (k, ss) (by simp)
+    have hnd' : (rest.map (·.1)).Nodup := (List.nodup_cons.1 hnd).2
+    have hknot : ∀ q ∈ rest, q.1 ≠ k := by
+      intro q hq e
+      exact (List.nodup_cons.1 hnd).1 (List.mem_map.2 ⟨q, hq, e⟩)
+    simp only [List.flatMap_cons, List.reverse_cons, List.flatMap_append, List.flatMap_nil, List.append_nil, List.append_assoc]
+    rw [runSig_append]
+    have inner := ih (fun T hT q hq => hP T hT q (by simp [hq])) (runSig S (installs k ss)) (hP S hS (k, ss) (by simp))
+      (fun q hq => ⟨fresh_ins_other (hknot q hq) ss (hfresh q (by simp [hq])).1, (hfresh q (by simp [hq])).2⟩) hnd'
+    have e : rest.flatMap (fun p => installs (ρ := ρ) p.1 p.2) ++ (mid ++ (rest.reverse.flatMap (fun p => restores p.1 p.2) ++ restores k ss))
+        = (rest.flatMap (fun p => installs p.1 p.2) ++ mid ++ rest.reverse.flatMap (fun p => restores p.1 p.2)) ++ restores k ss := by
+      simp [List.append_assoc]
+    rw [e, runSig_append, inner, ← runSig_append]
+    exact ins_res_cancel S k ss hk.2 hk.1
+
+end Handlers
+
+
+section Tagged
+variable {ρ' κ' : Type} [DecidableEq ρ'] [DecidableEq κ'] (f : Res → ρ') (h : Nat → κ')
+
+theorem map_installs (k : Nat) (ss : List Sig) : (installs (ρ := Res) k ss).map (Ev.map f h) = installs (h k) ss := by
+  simp [installs, Ev.map]
+theorem map_restores (k : Nat) (ss : List Sig) : (restores (ρ := Res) k ss).map (Ev.map f h) = restores (h k) ss := by
+  simp [restores, Ev.map]
+theorem noSig_map (evs : List CEv) : noSig (evs.map (Ev.map f h)) = noSig evs := by
+  induction evs with
+  | nil => rfl
+  | cons e evs ih => cases e <;> simp [Ev.map, noSig, ih]
+
+theorem allowed_hs (onMain : Bool) (s : Spec) : Allowed (s.hs onMain) := by
+  unfold Spec.hs Spec.sigs Allowed
+  cases onMain <;> simp
+  split <;> (try split) <;> simp
+
+/-- the handler part of a failed start: the failing proc object's swap and immediate restore -/
+def failTail (onMain : Bool) : List Spec → List CEv
+  | [] => []
+  | s :: rest =>
+    if s.kind == .ext && !s.found then installs s.idx (s.hs onMain) ++ restores s.idx (s.hs onMain)
+    else failTail onMain rest
+
+theorem noSig_spawn (s : Spec) : noSig (spawn s) = true := by
+  unfold spawn; split <;> (try split) <;> rfl
+theorem noSig_reap (s : Spec) : noSig (reap s) = true := by
+  unfold reap; split <;> (try split) <;> rfl
+theorem noSig_joinOnly (s : Spec) : noSig (joinOnly s) = true := by
+  unfold joinOnly; split <;> (try split) <;> rfl
+theorem noSig_closePrev (s : Spec) : noSig (closePrev s) = true := by
+  simp [closePrev, noSig_reap]
+theorem noSig_flatMap_closePrev (l : List Spec) : noSig (l.flatMap closePrev) = true := by
+  induction l with
+  | nil => rfl
+  | cons s l ih => simp [noSig_closePrev, ih]
+theorem noSig_lastClose (specs : List Spec) : noSig (lastClose specs) = true := by
+  unfold lastClose; split <;> simp
+
+theorem runSig_congr_prefix (S : SigSt κ') (a b b' : List (Ev ρ' κ')) (hb : ∀ T, runSig T b = runSig T b') :
+    runSig S (a ++ b) = runSig S (a ++ b') := by
+  rw [runSig_append, runSig_append, hb]
+
+theorem runSig_skip (S : SigSt κ') (a X : List (Ev ρ' κ')) (ha : noSig a = true) : runSig S (a ++ X) = runSig S X := by
+  rw [runSig_append, runSig_noSig ha]
+
+/-- as far as the handlers go, starting is: the started procs swap in order, then (on a failure) the failing one swaps and restores -/
+theorem start_sig (onMain : Bool) (specs : List Spec) : ∀ (S : SigSt κ') (X : List (Ev ρ' κ')),
+    runSig S ((start onMain specs).evs.map (Ev.map f h) ++ X) =
+    runSig S ((start onMain specs).procs.flatMap (fun s => installs (h s.idx) (s.hs onMain)) ++
+      ((failTail onMain specs).map (Ev.map f h) ++ X)) := by
+  induction specs with
+  | nil => intro S X; simp [start, failTail]
+  | cons s rest ih =>
+    intro S X
+    simp only [start, failTail]
+    split
+    · simp only [List.map_append, map_installs, map_restores, List.flatMap_nil, List.nil_append, List.append_assoc]
+      apply runSig_congr_prefix; intro T
+      apply runSig_congr_prefix; intro T'
+      exact runSig_skip _ _ _ (by rw [noSig_map]; exact noSig_closeAll _)
+    · simp only [List.map_append, map_installs, List.flatMap_cons, List.append_assoc]
+      apply runSig_congr_prefix; intro T
+      rw [runSig_skip _ _ _ (by rw [noSig_map]; exact noSig_spawn s)]
+      exact ih T X
+
+theorem failTail_id (onMain : Bool) (specs : List Spec) : ∀ T : SigSt κ', (∀ s ∈ specs, FreshKey T (h s.idx)) →
+    runSig T ((failTail onMain specs).map (Ev.map f h)) = T := by
+  induction specs with
+  | nil => intro T _; rfl
+  | cons s rest ih =>
+    intro T hT
+    simp only [failTail]
+    split
+    · rw [List.map_append, map_installs, map_restores]
+      exact ins_res_cancel T (h s.idx) _ (allowed_hs onMain s) (hT s (by simp))
+    · exact ih T (fun t ht => hT t (by simp [ht]))
+
+end Tagged
+
+
+/-- `spec.run` raises for this stage (command not found) -/
+def failsToStart (s : Spec) : Bool := s.kind == .ext && !s.found
+
+theorem start_procs_ok (onMain : Bool) (specs : List Spec) : ∀ s ∈ (start onMain specs).procs, failsToStart s = false := by
+  induction specs with
+  | nil => intro s hs; simp [start] at hs
+  | cons t rest ih =>
+    intro s hs
+    simp only [start] at hs
+    split at hs
+    · simp at hs
+    · rename_i hne
+      rcases List.mem_cons.1 hs with rfl | hs
+      · simpa [failsToStart] using hne
+      · exact ih s hs
+
+theorem failTail_nil_of_ok (onMain : Bool) (specs : List Spec) (hok : (start onMain specs).failed = false) :
+    failTail onMain specs = [] := by
+  induction specs with
+  | nil => rfl
+  | cons t rest ih =>
+    simp only [start] at hok
+    simp only [failTail]
+    split at hok
+    · simp at hok
+    · rename_i hne
+      simp only [hne]
+      exact ih hok
+
+section Tagged2
+variable {ρ' κ' : Type} [DecidableEq ρ'] [DecidableEq κ'] (f : Res → ρ') (h : Nat → κ')
+
+theorem failTail_id' (onMain : Bool) (specs : List Spec) : ∀ T : SigSt κ',
+    (∀ s ∈ specs, failsToStart s = true → FreshKey T (h s.idx)) →
+    runSig T ((failTail onMain specs).map (Ev.map f h)) = T := by
+  induction specs with
+  | nil => intro T _; rfl
+  | cons s rest ih =>
+    intro T hT
+    simp only [failTail]
+    split
+    · rename_i hs
+      rw [List.map_append, map_installs, map_restores]
+      exact ins_res_cancel T (h s.idx) _ (allowed_hs onMain s) (hT s (by simp) (by simpa [failsToStart] using hs))
+    · exact ih T (fun t ht => hT t (by simp [ht]))
+
+theorem map_restoreAll (onMain : Bool) (procs : List Spec) :
+    (restoreAll onMain procs).map (Ev.map f h) = procs.reverse.flatMap (fun s => restores (ρ := ρ') (h s.idx) (s.hs onMain)) := by
+  simp [restoreAll, List.map_flatMap, map_restores]
+
+/-- the handler part of `end()` -/
+def finishSig (v : Variant) (aborts onMain : Bool) (st : Started) : List (Ev ρ' κ') :=
+  if st.failed then (if v.lifo then st.procs.reverse.flatMap (fun s => restores (h s.idx) (s.hs onMain)) else [])
+  else match st.procs.getLast? with
+    | none => []
+    | some l => (if aborts then [] else restores (h l.idx) (l.hs onMain)) ++
+        (if v.lifo then st.procs.reverse.flatMap (fun s => restores (h s.idx) (s.hs onMain)) else [])
+
+theorem finish_sig (v : Variant) (aborts onMain : Bool) (specs : List Spec) (st : Started) (T : SigSt κ') :
+    runSig T ((finish v aborts onMain specs st).map (Ev.map f h)) = runSig T (finishSig (ρ' := ρ') h v aborts onMain st) := by
+  unfold finish finishSig
+  by_cases hf : st.failed = true
+  · simp only [hf, if_true, List.map_append]
+    rw [runSig_skip _ _ _ (by simp [noSig_map, noSig_flatMap_closePrev, noSig_lastClose])]
+    split
+    · rw [map_restoreAll]
+    · rfl
+  · have hf' : st.failed = false := by simpa using hf
+    simp only [hf', Bool.false_eq_true, if_false]
+    cases hl : st.procs.getLast? with
+    | none => rfl
+    | some l =>
+      simp only [List.map_append, List.append_assoc]
+      rw [runSig_skip _ _ _ (by simp [noSig_map, noSig_flatMap_closePrev])]
+      cases aborts with
+      | true =>
+        simp only [if_true, List.nil_append]
+        rw [runSig_skip _ _ _ (by simp [noSig_map, noSig_joinOnly]), runSig_skip _ _ _ (by simp [noSig_map])]
+        split
+        · rw [map_restoreAll]
+        · rfl
+      | false =>
+        simp only [Bool.false_eq_true, if_false, List.map_append, List.append_assoc]
+        rw [runSig_skip _ _ _ (by simp [noSig_map, noSig_reap]), map_restores]
+        apply runSig_congr_prefix; intro T'
+        rw [runSig_skip _ _ _ (by simp [noSig_map])]
+        split
+        · rw [map_restoreAll]
+        · rfl
+
+end Tagged2
+
+
+theorem eq_of_idx_eq {l : List Spec} (hnd : (l.map (·.idx)).Nodup) {a b : Spec} (ha : a ∈ l) (hb : b ∈ l)
+    (e : a.idx = b.idx) : a = b := by
+  induction l with
+  | nil => simp at ha
+  | cons x xs ih =>
+    simp only [List.map_cons, List.nodup_cons, List.mem_map, not_exists, not_and] at hnd
+    rcases List.mem_cons.1 ha with rfl | ha' <;> rcases List.mem_cons.1 hb with rfl | hb'
+    · rfl
+    · exact absurd e.symm (hnd.1 b hb')
+    · exact absurd e (hnd.1 a ha')
+    · exact ih hnd.2 ha' hb'
+
+theorem flatMap_map_reverse {α β γ : Type} (g : α → β) (F : β → List γ) (l : List α) :
+    (l.map g).reverse.flatMap F = l.reverse.flatMap (fun a => F (g a)) := by
+  induction l with
+  | nil => rfl
+  | cons a l ih => simp [List.flatMap_append, ih]
+
+theorem nodup_map_inj {α β : Type} {g : α → β} (hg : Function.Injective g) : ∀ {l : List α}, l.Nodup → (l.map g).Nodup
+  | [], _ => by simp
+  | a :: l, hnd => by
+    simp only [List.nodup_cons] at hnd
+    simp only [List.map_cons, List.nodup_cons, List.mem_map, not_exists, not_and]
+    exact ⟨fun x hx e => hnd.1 (by rw [← hg e]; exact hx), nodup_map_inj hg hnd.2⟩
+
+section Tagged3
+variable {ρ' κ' : Type} [DecidableEq ρ'] [DecidableEq κ'] (f : Res → ρ') (h : Nat → κ')
+
+/-- HANDLERS, with the `lifo` repair: whatever the pipeline, whichever stage fails to start, and whether or not the body of
+`_end` is left early — once the pipeline has been ended the signal table and every proc's memory are as before -/
+theorem command_sig_lifo (hinj : Function.Injective h) (v : Variant) (c : Cmd) (hl : v.lifo = true) (hend : endCalled c = true) :
+    ∀ S : SigSt κ', (∀ k, FreshKey S (h k)) → runSig S ((command v c).all.map (Ev.map f h)) = S := by
+  intro S hS
+  by_cases hw : (cmdsToSpecs v c).why = .ok
+  · obtain ⟨_, _, hnd⟩ := (cmdsToSpecs_inv v c).1 hw
+    rw [command_of_ok hw]
+    simp only [Run.all, hend, if_true, List.append_nil, List.map_append, List.append_assoc]
+    rw [runSig_skip _ _ _ (by rw [noSig_map]; exact (noSig_cmdsToSpecs v c).1)]
+    rw [start_sig]
+    generalize hspecs : (cmdsToSpecs v c).specs = specs at hnd ⊢
+    obtain ⟨_, suf, hsplit, _, _⟩ := start_inv c.onMain specs
+    have hsub : ∀ s ∈ (start c.onMain specs).procs, s ∈ specs := by
+      intro s hs; rw [hsplit]; exact List.mem_append_left _ hs
+    have hndp : ((start c.onMain specs).procs.map (·.idx)).Nodup := by
+      have := hnd; rw [hsplit, List.map_append] at this
+      exact (List.nodup_append.1 this).1
+    -- replace the end of the pipeline by its handler part
+    rw [runSig_congr_prefix _ _ _ _ (fun T => runSig_congr_prefix T _ _ _ (fun T' => finish_sig f h v c.endAborts c.onMain specs _ T'))]
+    unfold finishSig
+    by_cases hf : (start c.onMain specs).failed = true
+    · -- a stage failed to start
+      simp only [hf, hl, if_true]
+      have key := nest_id (ρ := ρ') ((failTail c.onMain specs).map (Ev.map f h))
+        (fun T => ∀ s ∈ specs, failsToStart s = true → FreshKey T (h s.idx))
+        (fun T hT => failTail_id' f h c.onMain specs T hT)
+        ((start c.onMain specs).procs.map (fun s => (h s.idx, s.hs c.onMain)))
+        (by
+          intro T hT p hp s hs hfail
+          obtain ⟨t, ht, rfl⟩ := List.mem_map.1 hp
+          apply fresh_ins_other _ _ (hT s hs hfail)
+          intro e
+          have : s = t := eq_of_idx_eq hnd hs (hsub t ht) (hinj e)
+          subst this
+          rw [start_procs_ok c.onMain specs s ht] at hfail; cases hfail)
+        S (fun s _ _ => hS _)
+        (by
+          intro p hp
+          obtain ⟨t, _, rfl⟩ := List.mem_map.1 hp
+          exact ⟨hS _, allowed_hs _ _⟩)
+        (by
+          rw [List.map_map]
+          have : ((fun x : κ' × List Sig => x.1) ∘ fun s : Spec => (h s.idx, s.hs c.onMain)) = h ∘ (·.idx) := rfl
+          rw [this, ← List.map_map]
+          exact nodup_map_inj hinj hndp)
+      rw [flatMap_map_reverse] at key
+      simpa [List.flatMap_map, Function.comp, List.append_assoc] using key
+    · have hf' : (start c.onMain specs).failed = false := by simpa using hf
+      simp only [hf', Bool.false_eq_true, if_false, hl, if_true]
+      rw [failTail_nil_of_ok c.onMain specs hf']
+      cases hlast : (start c.onMain specs).procs.getLast? with
+      | none =>
+        have : (start c.onMain specs).procs = [] := by simpa using hlast
+        simp [this]
+      | some l =>
+        have hsplit2 := dropLast_append_of_getLast? hlast
+        generalize (start c.onMain specs).procs.dropLast = init at hsplit2
+        rw [← hsplit2] at hndp hsub ⊢
+        have hl_ne : ∀ t ∈ init, h t.idx ≠ h l.idx := by
+          intro t ht e
+          rw [List.map_append, List.nodup_append] at hndp
+          exact hndp.2.2 t.idx (List.mem_map.2 ⟨t, ht, rfl⟩) l.idx (by simp) (hinj e)
+        have key := nest_id (ρ := ρ')
+          (installs (h l.idx) (l.hs c.onMain) ++ (if c.endAborts then [] else restores (h l.idx) (l.hs c.onMain)) ++
+            restores (h l.idx) (l.hs c.onMain))
+          (fun T => FreshKey T (h l.idx))
+          (by
+            intro T hT
+            cases c.endAborts with
+            | true => simpa using ins_res_cancel T (h l.idx) _ (allowed_hs _ l) hT
+            | false =>
+              simp only [Bool.false_eq_true, if_false]
+              rw [runSig_append, ins_res_cancel T (h l.idx) _ (allowed_hs _ l) hT]
+              exact res_fresh T _ _ hT)
+          (init.map (fun s => (h s.idx, s.hs c.onMain)))
+          (by
+            intro T hT p hp
+            obtain ⟨t, ht, rfl⟩ := List.mem_map.1 hp
+            exact fresh_ins_other (hl_ne t ht).symm _ hT)
+          S (hS _)
+          (by
+            intro p hp
+            obtain ⟨t, _, rfl⟩ := List.mem_map.1 hp
+            exact ⟨hS _, allowed_hs _ _⟩)
+          (by
+            rw [List.map_map]
+            have : ((fun x : κ' × List Sig => x.1) ∘ fun s : Spec => (h s.idx, s.hs c.onMain)) = h ∘ (·.idx) := rfl
+            rw [this, ← List.map_map]
+            rw [List.map_append, List.nodup_append] at hndp
+            exact nodup_map_inj hinj hndp.1)
+        rw [flatMap_map_reverse] at key
+        simpa [List.flatMap_map, Function.comp, List.append_assoc, List.flatMap_append] using key
+  · rw [command_of_not_ok hw]
+    simp only [Run.all, List.map_append]
+    rw [runSig_append, runSig_noSig (by rw [noSig_map]; exact (noSig_cmdsToSpecs v c).2),
+      runSig_noSig (by rw [noSig_map]; exact (noSig_cmdsToSpecs v c).1)]
+
+end Tagged3
+
+
+-- extra closes ---------------------------------------------------------------------------------------------------
+
+theorem opensOf_map_cls' (l : List ρ) : opensOf (l.map (Ev.cls (κ := κ))) = [] := by
+  induction l with
+  | nil => rfl
+  | cons x xs ih => simpa [opensOf] using ih
+
+theorem mem_residue_extra {a b : List (Ev ρ κ)} {xs : List ρ} {x : ρ}
+    (hx : x ∈ runRes [] (a ++ xs.map Ev.cls ++ b)) : x ∈ runRes [] (a ++ b) := by
+  rcases mem_runRes_append.1 hx with h | ⟨h, hb⟩
+  · exact mem_runRes_append.2 (Or.inl h)
+  · rcases mem_runRes_append.1 h with h' | ⟨h', _⟩
+    · rw [runRes_nil_of_no_opens (opensOf_map_cls' xs)] at h'; simp at h'
+    · exact mem_runRes_append.2 (Or.inr ⟨h', hb⟩)
+
+/-- closing more, anywhere, cannot leave more open -/
+theorem residue_extra_nil {a b : List (Ev ρ κ)} (xs : List ρ) (h : runRes [] (a ++ b) = []) :
+    runRes [] (a ++ xs.map Ev.cls ++ b) = [] := by
+  apply List.eq_nil_iff_forall_not_mem.2
+  intro x hx
+  have := mem_residue_extra hx
+  rw [h] at this; simp at this
+
+-- handlers, the code as it is ------------------------------------------------------------------------------------
+
+theorem flatMap_installs_nil {κ' ρ' : Type} (h : Nat → κ') (onMain : Bool) (l : List Spec) (hq : ∀ s ∈ l, s.hs onMain = []) :
+    l.flatMap (fun s => installs (ρ := ρ') (h s.idx) (s.hs onMain)) = [] := by
+  induction l with
+  | nil => rfl
+  | cons s l ih =>
+    rw [List.flatMap_cons, hq s (by simp), ih (fun t ht => hq t (by simp [ht]))]; rfl
+
+section Tagged4
+variable {ρ' κ' : Type} [DecidableEq ρ'] [DecidableEq κ'] (f : Res → ρ') (h : Nat → κ')
+
+/-- HANDLERS, the code as it is: restored provided no started stage other than the last one swaps a handler (a callable
+alias before the last stage does), and the body of `_end` is not left early while the last one has swapped -/
+theorem command_sig_partial (v : Variant) (hl' : v.lifo = false) (c : Cmd) (hend : endCalled c = true)
+    (hq : ∀ s ∈ (if (command v c).startFailed then (command v c).procs else (command v c).procs.dropLast), s.hs c.onMain = [])
+    (hab : c.endAborts = true → ∀ s ∈ (command v c).procs, s.hs c.onMain = []) :
+    ∀ S : SigSt κ', (∀ k, FreshKey S (h k)) → runSig S ((command v c).all.map (Ev.map f h)) = S := by
+  intro S hS
+  by_cases hw : (cmdsToSpecs v c).why = .ok
+  · rw [command_of_ok hw] at hq hab ⊢
+    simp only [Run.all, hend, if_true, List.append_nil, List.map_append, List.append_assoc] at hq hab ⊢
+    rw [runSig_skip _ _ _ (by rw [noSig_map]; exact (noSig_cmdsToSpecs v c).1)]
+    rw [start_sig]
+    generalize (cmdsToSpecs v c).specs = specs at hq hab ⊢
+    · rw [runSig_congr_prefix _ _ _ _ (fun T => runSig_congr_prefix T _ _ _ (fun T' => finish_sig f h v c.endAborts c.onMain specs _ T'))]
+      unfold finishSig
+      by_cases hf : (start c.onMain specs).failed = true
+      · simp only [hf, hl', if_true, Bool.false_eq_true, if_false, List.append_nil] at hq ⊢
+        rw [flatMap_installs_nil h c.onMain _ hq, List.nil_append]
+        exact failTail_id' f h c.onMain specs S (fun s _ _ => hS _)
+      · have hf' : (start c.onMain specs).failed = false := by simpa using hf
+        simp only [hf', Bool.false_eq_true, if_false, hl', List.append_nil] at hq ⊢
+        rw [failTail_nil_of_ok c.onMain specs hf']
+        cases hlast : (start c.onMain specs).procs.getLast? with
+        | none =>
+          have : (start c.onMain specs).procs = [] := by simpa using hlast
+          simp [this]
+        | some l =>
+          have hsplit2 := dropLast_append_of_getLast? hlast
+          rw [← hsplit2, List.flatMap_append, flatMap_installs_nil h c.onMain _ hq]
+          simp only [List.flatMap_cons, List.flatMap_nil, List.append_nil, List.nil_append, List.map_nil]
+          cases hab' : c.endAborts with
+          | true =>
+            have : l.hs c.onMain = [] := hab hab' l (by rw [← hsplit2]; simp)
+            simp [this, installs]
+          | false =>
+            simp only [Bool.false_eq_true, if_false]
+            exact ins_res_cancel S (h l.idx) _ (allowed_hs _ l) (hS _)
+  · rw [command_of_not_ok hw]
+    simp only [Run.all, List.map_append]
+    rw [runSig_append, runSig_noSig (by rw [noSig_map]; exact (noSig_cmdsToSpecs v c).2),
+      runSig_noSig (by rw [noSig_map]; exact (noSig_cmdsToSpecs v c).1)]
+
+end Tagged4
+
+
+-- what is open while the raised exception is still referenced -----------------------------------------------------
+
+/-- a redirect file of stage k -/
+def IsFileOf (k : Nat) (x : Res) : Prop := x.stage = k ∧ ∃ j, x.what = .file j
+
+theorem applyRedir_files (k j : Nat) (s : Spec) (r : Redir) :
+    ∀ x ∈ (applyRedir k j s r).spec.held, x ∈ s.held ∨ IsFileOf k x := by
+  obtain ⟨idx, kind, found, sin, sout, serr, co, ce, ch, pt⟩ := s
+  cases r with
+  | file t o =>
+    cases o <;> cases t <;> cases sin <;> cases sout <;> cases serr <;>
+      simp [applyRedir, assign3, assign, Spec.held, IsFileOf] <;> (try grind)
+  | errToOut | outToErr | errToPipe | allToPipe =>
+    cases sin <;> cases sout <;> cases serr <;>
+      simp [applyRedir, assign3, assign, Spec.held, IsFileOf] <;> (try grind)
+
+theorem applyRedirs_files (k : Nat) (rs : List Redir) : ∀ (j : Nat) (s : Spec),
+    ∀ x ∈ (applyRedirs k j s rs).spec.held, x ∈ s.held ∨ IsFileOf k x := by
+  induction rs with
+  | nil => intro j s x hx; exact Or.inl hx
+  | cons r rs ih =>
+    intro j s x hx
+    simp only [applyRedirs] at hx
+    split at hx
+    · exact applyRedir_files k j s r x hx
+    · rcases ih (j + 1) _ x hx with h | h
+      · exact applyRedir_files k j s r x h
+      · exact Or.inr h
+
+theorem build_files (k : Nat) (st : Stage) : ∀ x ∈ (build k st).spec.held, IsFileOf k x := by
+  intro x hx
+  have key : ∀ x ∈ (applyRedirs k 0 (Spec.new k st) st.redirs).spec.held, IsFileOf k x := by
+    intro x hx
+    rcases applyRedirs_files k st.redirs 0 (Spec.new k st) x hx with h | h
+    · rw [Spec.new_held] at h; simp at h
+    · exact h
+  simp only [build] at hx
+  split at hx <;> exact key x hx
+
+theorem buildAll_failed_files (stages : List Stage) : ∀ k f, (buildAll k stages).failed = some f →
+    ∃ k', ∀ x ∈ f.held, IsFileOf k' x := by
+  induction stages with
+  | nil => intro k f h; simp [buildAll] at h
+  | cons st rest ih =>
+    intro k f h
+    simp only [buildAll] at h
+    split at h
+    · simp only [Option.some.injEq] at h
+      exact ⟨k, fun x hx => build_files k st x (by rw [h]; exact hx)⟩
+    · exact ih (k + 1) f h
+
+theorem wire_orphan (rest : List Spec) : ∀ up, (wire up rest).orphan = [] ∨
+    ∃ k, (wire up rest).orphan = [⟨k, .pipeW⟩, ⟨k, .pipeR⟩] := by
+  induction rest with
+  | nil => intro up; left; rfl
+  | cons dn rest ih =>
+    intro up
+    simp only [wire]
+    split
+    · exact Or.inr ⟨up.idx, rfl⟩
+    · split
+      · exact Or.inr ⟨up.idx, rfl⟩
+      · exact ih _
+
+/-- what can stay open while the exception is held: redirect files of ONE stage (the one whose build raised), or the
+one pipe that was not yet attached -/
+def HeldShape (k : Nat) (x : Res) : Prop := x.stage = k ∧ ((∃ j, x.what = .file j) ∨ x.what = .pipeR ∨ x.what = .pipeW)
+
+theorem onRelease_shape (v : Variant) (c : Cmd) : ∃ k, ∀ x ∈ closes (cmdsToSpecs v c).onRelease, HeldShape k x := by
+  unfold cmdsToSpecs
+  dsimp only
+  split
+  · rename_i fsp hf
+    obtain ⟨k', hk'⟩ := buildAll_failed_files c.stages 0 fsp hf
+    split
+    · exact ⟨0, by simp [closes]⟩
+    · refine ⟨k', fun x hx => ?_⟩
+      rw [closes_closeSpec] at hx
+      exact ⟨(hk' x hx).1, Or.inl (hk' x hx).2⟩
+  · split
+    · exact ⟨0, by simp [closes]⟩
+    · rename_i s0 rest _
+      split
+      · split
+        · exact ⟨0, by simp [closes]⟩
+        · rcases wire_orphan rest s0 with h | ⟨k, h⟩
+          · exact ⟨0, by simp [h, closes]⟩
+          · refine ⟨k, fun x hx => ?_⟩
+            rw [closes_map_cls, h] at hx
+            simp only [List.mem_cons, List.not_mem_nil, or_false] at hx
+            rcases hx with rfl | rfl
+            · exact ⟨rfl, Or.inr (Or.inr rfl)⟩
+            · exact ⟨rfl, Or.inr (Or.inl rfl)⟩
+      · split
+        · exact ⟨0, by simp [closes]⟩
+        · split
+          · exact ⟨0, by simp [closes]⟩
+          · exact ⟨0, by simp [closes]⟩
+
+/-- while the exception raised by `cmds_to_specs` is still referenced, only that is open -/
+theorem held_bounded (v : Variant) (c : Cmd) (hw : (command v c).why ≠ .ok) :
+    ∃ k, ∀ x ∈ runRes [] (command v c).main, HeldShape k x := by
+  have hw' : (cmdsToSpecs v c).why ≠ .ok := by
+    intro h; rw [command_of_ok h] at hw; exact hw rfl
+  obtain ⟨k, hk⟩ := onRelease_shape v c
+  refine ⟨k, fun x hx => hk x ?_⟩
+  rw [command_of_not_ok hw'] at hx
+  have hnil := (cmdsToSpecs_inv v c).2 hw'
+  apply Classical.byContradiction
+  intro hnc
+  have : x ∈ runRes [] ((cmdsToSpecs v c).evs ++ (cmdsToSpecs v c).onRelease) :=
+    mem_runRes_append.2 (Or.inr ⟨hx, hnc⟩)
+  rw [hnil] at this; simp at this
+
+
+-- the converse: what exactly stays open after a late start failure ------------------------------------------------
+
+/-- everything a spec holds carries the spec's own index -/
+def StageOwn (s : Spec) : Prop := ∀ y ∈ s.held, y.stage = s.idx
+
+theorem build_stageOwn (k : Nat) (st : Stage) : StageOwn (build k st).spec := by
+  intro y hy
+  rw [(build_inv k st).2.1]
+  exact (build_files k st y hy).1
+
+theorem buildAll_stageOwn (stages : List Stage) : ∀ k, ∀ s ∈ (buildAll k stages).specs, StageOwn s := by
+  induction stages with
+  | nil => intro k s hs; simp [buildAll] at hs
+  | cons st rest ih =>
+    intro k s hs
+    simp only [buildAll] at hs
+    split at hs
+    · simp at hs
+    · rcases List.mem_cons.1 hs with rfl | hs
+      · exact build_stageOwn k st
+      · exact ih (k + 1) s hs
+
+theorem wireUp_stageOwn (up : Spec) (h : StageOwn up) : StageOwn (wireUp up).1 := by
+  obtain ⟨idx, kind, found, sin, sout, serr, co, ce, ch, pt⟩ := up
+  unfold StageOwn at h ⊢
+  rcases sout with _ | (_ | _ | _ | _ | _) <;> rcases serr with _ | (_ | _ | _ | _ | _) <;>
+    simp_all [wireUp, Spec.held]
+
+theorem wire_stageOwn (rest : List Spec) : ∀ up, StageOwn up → (∀ s ∈ rest, StageOwn s) →
+    ∀ s ∈ (wire up rest).specs, StageOwn s := by
+  induction rest with
+  | nil => intro up hu _ s hs; simp [wire] at hs; rw [hs]; exact hu
+  | cons dn rest ih =>
+    intro up hu hr s hs
+    have hu' := wireUp_stageOwn up hu
+    have hidx := (wireUp_inv up).2.1.idx
+    simp only [wire] at hs
+    split at hs
+    · rcases List.mem_cons.1 hs with rfl | hs
+      · exact hu'
+      · exact hr s hs
+    · split at hs
+      · rcases List.mem_cons.1 hs with rfl | hs
+        · exact hu'
+        · exact hr s hs
+      · rename_i _ hsin
+        have hsin' : dn.sin.isSome = false := by simpa using hsin
+        rcases List.mem_cons.1 hs with rfl | hs
+        · intro y hy
+          rw [held_with_chan] at hy
+          rcases List.mem_append.1 hy with h | h
+          · exact hu' y h
+          · simp only [List.mem_cons, List.not_mem_nil, or_false] at h
+            rcases h with rfl | rfl <;> exact hidx.symm
+        · refine ih { dn with sin := some Val.fd } ?_ (fun t ht => hr t (by simp [ht])) s hs
+          intro y hy
+          rw [held_with_sin_fd dn hsin'] at hy
+          exact hr dn (by simp) y hy
+
+theorem stageOwn_iff (s : Spec) : StageOwn s ↔
+    (∀ y ∈ valRes s.sin, y.stage = s.idx) ∧ (∀ y ∈ valRes s.sout, y.stage = s.idx) ∧ (∀ y ∈ valRes s.serr, y.stage = s.idx) ∧
+    (∀ y ∈ optRes s.capOut, y.stage = s.idx) ∧ (∀ y ∈ optRes s.capErr, y.stage = s.idx) ∧ (∀ y ∈ chanRes s.chans, y.stage = s.idx) := by
+  simp only [StageOwn, Spec.held, List.mem_append, or_imp, forall_and]
+  constructor
+  · rintro ⟨⟨⟨⟨⟨a, b⟩, c⟩, d⟩, e⟩, f⟩; exact ⟨a, b, c, d, e, f⟩
+  · rintro ⟨a, b, c, d, e, f⟩; exact ⟨⟨⟨⟨⟨a, b⟩, c⟩, d⟩, e⟩, f⟩
+
+theorem chanRes_snoc_own {ch : List (Res × Res)} {k : Nat} {a b : What} (h : ∀ y ∈ chanRes ch, y.stage = k) :
+    ∀ y ∈ chanRes (ch ++ [(⟨k, a⟩, ⟨k, b⟩)]), y.stage = k := by
+  intro y hy
+  rw [chanRes_append] at hy
+  rcases List.mem_append.1 hy with h' | h'
+  · exact h y h'
+  · simp only [chanRes, List.mem_cons, List.not_mem_nil, or_false] at h'
+    rcases h' with rfl | rfl <;> rfl
+
+theorem capOutSide_stageOwn (s : Spec) (h : StageOwn s) : StageOwn (capOutSide s).2 := by
+  unfold capOutSide
+  split
+  · exact h
+  · obtain ⟨a, b, c, d, e, f⟩ := (stageOwn_iff s).1 h
+    refine (stageOwn_iff _).2 ⟨a, ?_, c, ?_, e, chanRes_snoc_own f⟩
+    · intro y hy; simp only [valRes_obj, List.mem_singleton] at hy; subst hy; rfl
+    · intro y hy; simp only [optRes_some, List.mem_singleton] at hy; subst hy; rfl
+
+theorem capErrSide_stageOwn (c : Capture) (s : Spec) (h : StageOwn s) : StageOwn (capErrSide c s).2 := by
+  unfold capErrSide
+  split
+  · exact h
+  · obtain ⟨a, b, c', d, e, f⟩ := (stageOwn_iff s).1 h
+    refine (stageOwn_iff _).2 ⟨a, b, ?_, d, ?_, chanRes_snoc_own f⟩
+    · intro y hy; simp only [valRes_obj, List.mem_singleton] at hy; subst hy; rfl
+    · intro y hy; simp only [optRes_some, List.mem_singleton] at hy; subst hy; rfl
+
+theorem fixOutToErr_stageOwn (s : Spec) (h : StageOwn s) : StageOwn (fixOutToErr s) := by
+  unfold fixOutToErr
+  split
+  · obtain ⟨a, b, c, d, e, f⟩ := (stageOwn_iff s).1 h
+    exact (stageOwn_iff _).2 ⟨a, c, c, d, e, f⟩
+  · exact h
+
+theorem fixErrToOut_stageOwn (s : Spec) (h : StageOwn s) : StageOwn (fixErrToOut s) := by
+  unfold fixErrToOut
+  split
+  · obtain ⟨a, b, c, d, e, f⟩ := (stageOwn_iff s).1 h
+    exact (stageOwn_iff _).2 ⟨a, b, b, d, by simp, f⟩
+  · exact h
+
+theorem setThreading_stageOwn (c : Capture) (ca : Bool) (s : Spec) (h : StageOwn s) : StageOwn (setThreading c ca s) := by
+  unfold setThreading
+  split
+  · exact h
+  · exact h
+
+theorem updateLast_stageOwn (c : Capture) (ca : Bool) (s : Spec) (h : StageOwn s) : StageOwn (updateLast c ca s).2 := by
+  unfold updateLast
+  split
+  · exact h
+  · split
+    · exact setThreading_stageOwn c ca s h
+    · exact fixErrToOut_stageOwn _ (fixOutToErr_stageOwn _ (capErrSide_stageOwn c _ (capOutSide_stageOwn _ (setThreading_stageOwn c ca s h))))
+
+theorem mapLast_stageOwn (c : Capture) (ca : Bool) (specs : List Spec) (h : ∀ s ∈ specs, StageOwn s) :
+    ∀ s ∈ (mapLast (updateLast c ca) specs).2, StageOwn s := by
+  induction specs with
+  | nil => intro s hs; simp [mapLast] at hs
+  | cons t rest ih =>
+    cases rest with
+    | nil =>
+      intro s hs
+      simp only [mapLast, List.mem_singleton] at hs
+      rw [hs]; exact updateLast_stageOwn c ca t (h t (by simp))
+    | cons t2 rest2 =>
+      intro s hs
+      simp only [mapLast] at hs ih
+      rcases List.mem_cons.1 hs with rfl | hs
+      · exact h _ (by simp)
+      · exact ih (fun u hu => h u (by simp [hu])) s hs
+
+
+theorem mem_runRes_of_open_noclose {x : ρ} {evs : List (Ev ρ κ)} (ho : x ∈ opensOf evs) (hc : closes evs = []) :
+    x ∈ runRes [] evs := by
+  induction evs with
+  | nil => simp [opensOf] at ho
+  | cons e evs ih =>
+    have split : e :: evs = [e] ++ evs := rfl
+    rw [split, mem_runRes_append]
+    cases e with
+    | opn r =>
+      simp only [opensOf, List.mem_cons] at ho
+      simp only [closes] at hc
+      rcases ho with rfl | ho
+      · exact Or.inr ⟨by simp [stepRes], by rw [hc]; simp⟩
+      · exact Or.inl (ih ho hc)
+    | cls r => simp [closes] at hc
+    | install k s => exact Or.inl (ih (by simpa [opensOf] using ho) (by simpa [closes] using hc))
+    | restore k s => exact Or.inl (ih (by simpa [opensOf] using ho) (by simpa [closes] using hc))
+
+theorem wire_cons_ok (up dn : Spec) (rest : List Spec) (h1 : (wireUp up).2 = false) (h2 : dn.sin.isSome = false) :
+    wire up (dn :: rest) =
+      ⟨[Ev.opn ⟨up.idx, .pipeR⟩, Ev.opn ⟨up.idx, .pipeW⟩] ++ (wire { dn with sin := some Val.fd } rest).evs,
+       { (wireUp up).1 with chans := (wireUp up).1.chans ++ [(⟨up.idx, .pipeR⟩, ⟨up.idx, .pipeW⟩)] } ::
+         (wire { dn with sin := some Val.fd } rest).specs,
+       (wire { dn with sin := some Val.fd } rest).orphan, (wire { dn with sin := some Val.fd } rest).raised⟩ := by
+  simp [wire, h1, h2]
+
+/-- the `|` loop opens the pipe of every spec but the last -/
+theorem wire_opens (rest : List Spec) : ∀ up, (wire up rest).raised = false →
+    ∀ i ∈ ((wire up rest).specs.dropLast).map (·.idx), (⟨i, .pipeR⟩ : Res) ∈ opensOf (wire up rest).evs := by
+  induction rest with
+  | nil => intro up _ i hi; simp [wire] at hi
+  | cons dn rest ih =>
+    intro up hr i hi
+    have hidx := (wireUp_inv up).2.1.idx
+    by_cases h1 : (wireUp up).2 = true
+    · simp [wire, h1] at hr
+    · by_cases h2 : dn.sin.isSome = true
+      · simp [wire, h1, h2] at hr
+      · have h1' : (wireUp up).2 = false := by simpa using h1
+        have h2' : dn.sin.isSome = false := by simpa using h2
+        rw [wire_cons_ok up dn rest h1' h2'] at hr hi ⊢
+        dsimp only at hr hi ⊢
+        have hne : (wire { dn with sin := some Val.fd } rest).specs ≠ [] := by
+          obtain ⟨b, bs, hb, _, _⟩ := (wire_inv rest { dn with sin := some Val.fd }).2.2.1.cons_inv
+          rw [hb]; simp
+        rw [List.dropLast_cons_of_ne_nil hne] at hi
+        simp only [List.map_cons, List.mem_cons] at hi
+        rw [opensOf_append]
+        rcases hi with rfl | hi
+        · refine List.mem_append_left _ ?_
+          simp [opensOf, hidx]
+        · exact List.mem_append_right _ (ih _ hr i hi)
+
+theorem start_failed_lt (onMain : Bool) (specs : List Spec) (hf : (start onMain specs).failed = true) :
+    (start onMain specs).procs.length < specs.length := by
+  induction specs with
+  | nil => simp [start] at hf
+  | cons s rest ih =>
+    simp only [start] at hf ⊢
+    split
+    · simp
+    · rename_i hne
+      simp only [hne] at hf
+      simpa using ih hf
+
+theorem map_dropLast {α β : Type} (g : α → β) : ∀ l : List α, (l.dropLast).map g = (l.map g).dropLast
+  | [] => rfl
+  | [_] => rfl
+  | a :: b :: l => by
+    simp only [List.dropLast_cons_cons, List.map_cons]
+    rw [map_dropLast g (b :: l)]; rfl
+
+theorem cmdsToSpecs_ok_shape (v : Variant) (c : Cmd) (hw : (cmdsToSpecs v c).why = .ok) :
+    (∀ s ∈ (cmdsToSpecs v c).specs, StageOwn s) ∧
+    ∀ i ∈ ((cmdsToSpecs v c).specs.dropLast).map (·.idx), (⟨i, .pipeR⟩ : Res) ∈ runRes [] (cmdsToSpecs v c).evs := by
+  obtain ⟨b1, b2, b3⟩ := buildAll_inv c.stages 0
+  have bso := buildAll_stageOwn c.stages 0
+  unfold cmdsToSpecs at hw ⊢
+  dsimp only at hw ⊢
+  split at hw
+  · split at hw <;> simp at hw
+  · split at hw
+    · simp at hw
+    · rename_i s0 rest hs
+      rw [hs] at bso b2
+      split at hw
+      · split at hw <;> simp at hw
+      · rename_i hr
+        split at hw
+        · simp at hw
+        · split at hw
+          · simp at hw
+          · rename_i hse hun
+            simp only [hs, hr, hse, hun, if_false]
+            have hr' : (wire s0 rest).raised = false := by simpa using hr
+            obtain ⟨_, _, w3, w4, _⟩ := wire_inv rest s0
+            have hidx : Indexed 0 (wire s0 rest).specs := Indexed_of_frames w3 b2
+            obtain ⟨_, _, m3, m4⟩ := mapLast_inv c.capture c.captureAlways (wire s0 rest).specs 0 hidx
+            refine ⟨mapLast_stageOwn _ _ _ (wire_stageOwn rest s0 (bso s0 (by simp)) (fun t ht => bso t (by simp [ht]))), ?_⟩
+            intro i hi
+            have hi' : i ∈ ((wire s0 rest).specs.dropLast).map (·.idx) := by
+              rw [map_dropLast, ← m4, ← map_dropLast]; exact hi
+            have hopen := wire_opens rest s0 hr' i hi'
+            have hw1 : (⟨i, .pipeR⟩ : Res) ∈ runRes [] (wire s0 rest).evs := mem_runRes_of_open_noclose hopen w4
+            apply mem_runRes_append.2
+            right
+            refine ⟨mem_runRes_append.2 (Or.inl hw1), ?_⟩
+            rw [m3]; simp
+
+
+theorem procRes1_stage (s : Spec) : ∀ y ∈ procRes1 s, y.stage = s.idx := by
+  intro y hy
+  unfold procRes1 spawn at hy
+  split at hy
+  · split at hy
+    · simp only [opensOf, List.mem_cons, List.not_mem_nil, or_false] at hy
+      rcases hy with rfl | rfl <;> rfl
+    · simp only [opensOf, List.mem_cons, List.not_mem_nil, or_false] at hy
+      subst hy; rfl
+  · simp only [opensOf, List.mem_cons, List.not_mem_nil, or_false] at hy
+    subst hy; rfl
+  · simp [opensOf] at hy
+
+theorem getLast?_cons_of_ne_nil' {α : Type} {x : α} : ∀ {l : List α}, l ≠ [] → (x :: l).getLast? = l.getLast?
+  | [], h => absurd rfl h
+  | _ :: _, _ => by simp [List.getLast?_cons_cons]
+
+theorem getLast?_append_of_ne_nil {α : Type} (a : List α) {b : List α} (hb : b ≠ []) : (a ++ b).getLast? = b.getLast? := by
+  induction a with
+  | nil => rfl
+  | cons x xs ih =>
+    have : xs ++ b ≠ [] := by simp [hb]
+    rw [List.cons_append, getLast?_cons_of_ne_nil' this]
+    exact ih
+
+/-- THE CONVERSE of the guard of `command_residue`: without the `teardown` repair, when a stage other than the first fails
+to start, the read end of the pipe of the stage just before it is still open after the command -/
+theorem late_failure_leaks (v : Variant) (ht : v.teardown = false) (c : Cmd) (hend : endCalled c = true)
+    (hf : (command v c).startFailed = true) (l : Spec) (hl : (command v c).procs.getLast? = some l) :
+    (⟨l.idx, .pipeR⟩ : Res) ∈ runRes [] (command v c).all := by
+  have hw : (cmdsToSpecs v c).why = .ok := by
+    apply Classical.byContradiction
+    intro h
+    rw [command_of_not_ok h] at hf; simp at hf
+  obtain ⟨_, _, hnd⟩ := (cmdsToSpecs_inv v c).1 hw
+  obtain ⟨hso, hopen⟩ := cmdsToSpecs_ok_shape v c hw
+  rw [command_of_ok hw] at hf hl ⊢
+  simp only [Run.all, hend, if_true, List.append_nil] at hf hl ⊢
+  generalize (cmdsToSpecs v c).specs = specs at hnd hso hopen hf hl ⊢
+  obtain ⟨_, suf, hsplit, hcl, _⟩ := start_inv c.onMain specs
+  have hlt := start_failed_lt c.onMain specs hf
+  have hsuf : suf ≠ [] := by
+    intro h
+    rw [h, List.append_nil] at hsplit
+    rw [← hsplit] at hlt
+    exact Nat.lt_irrefl _ hlt
+  generalize hprocs : (start c.onMain specs).procs = procs at hsplit hl hlt ⊢
+  have hpl := dropLast_append_of_getLast? hl
+  have hlmem : l ∈ procs := by rw [← hpl]; simp
+  -- indices: procs and suf are disjoint, and so are procs.dropLast and l
+  have hnd' := hnd
+  rw [hsplit, List.map_append, List.nodup_append] at hnd'
+  have hdisj : ∀ s ∈ suf, s.idx ≠ l.idx := fun s hs e =>
+    hnd'.2.2 l.idx (List.mem_map.2 ⟨l, hlmem, rfl⟩) s.idx (List.mem_map.2 ⟨s, hs, rfl⟩) e.symm
+  have hndp : (procs.map (·.idx)).Nodup := hnd'.1
+  rw [← hpl, List.map_append, List.nodup_append] at hndp
+  have hdisj2 : ∀ s ∈ procs.dropLast, s.idx ≠ l.idx := fun s hs e =>
+    hndp.2.2 s.idx (List.mem_map.2 ⟨s, hs, rfl⟩) l.idx (by simp) e
+  have hsub : ∀ s ∈ specs, StageOwn s := hso
+  -- (a) opened while the specs were prepared
+  have ha : (⟨l.idx, .pipeR⟩ : Res) ∈ runRes [] (cmdsToSpecs v c).evs := by
+    apply hopen
+    rw [hsplit, List.dropLast_append_of_ne_nil hsuf, List.map_append]
+    exact List.mem_append_left _ (List.mem_map.2 ⟨l, hlmem, rfl⟩)
+  -- (b) not closed by the failure branch of the constructor
+  have hb : (⟨l.idx, .pipeR⟩ : Res) ∉ closes (start c.onMain specs).evs := by
+    rw [hcl]
+    intro h
+    obtain ⟨s, hs, hx⟩ := mem_heldAll.1 h
+    exact hdisj s hs (hsub s (by rw [hsplit]; exact List.mem_append_right _ hs) _ hx).symm
+  -- (c) not closed by end()
+  have hc : (⟨l.idx, .pipeR⟩ : Res) ∉ closes (finish v c.endAborts c.onMain specs (start c.onMain specs)) := by
+    unfold finish
+    rw [hf, hprocs]
+    simp only [if_true, ht, Bool.false_eq_true, if_false]
+    rw [closes_append, closes_append]
+    intro h
+    rcases List.mem_append.1 h with h | h
+    · rcases List.mem_append.1 h with h | h
+      · rw [closes_flatMap] at h
+        obtain ⟨s, hs, hx⟩ := List.mem_flatMap.1 h
+        rw [closes_closePrev] at hx
+        have hs' : s ∈ specs := by
+          rw [hsplit]; exact List.mem_append_left _ (by rw [← hpl]; exact List.mem_append_left _ hs)
+        rcases List.mem_append.1 hx with hx | hx
+        · exact hdisj2 s hs (hsub s hs' _ hx).symm
+        · exact hdisj2 s hs (procRes1_stage s _ hx).symm
+      · unfold lastClose at h
+        rw [hsplit, getLast?_append_of_ne_nil procs hsuf] at h
+        cases hz : suf.getLast? with
+        | none => rw [hz] at h; simp [closes] at h
+        | some z =>
+          rw [hz] at h
+          simp only at h
+          rw [closes_closeSpec] at h
+          have hzmem : z ∈ suf := List.mem_of_getLast? hz
+          exact hdisj z hzmem (hsub z (by rw [hsplit]; exact List.mem_append_right _ hzmem) _ h).symm
+    · split at h
+      · rw [closes_restoreAll] at h; simp at h
+      · simp [closes] at h
+  apply mem_runRes_append.2
+  right
+  exact ⟨mem_runRes_append.2 (Or.inr ⟨ha, hb⟩), hc⟩
 
 end FdLedger
